@@ -27,6 +27,9 @@ type Method struct {
 	// SkipCopy (C04): skipCopySameType is in effect for this method (converter level or on
 	// the method itself): sharing is allowed, but only at identical-type positions.
 	SkipCopy bool
+	// WrapOff (C07): the method carries `goverter:wrapErrors no` in a wrapErrors world; the
+	// location oracle does not apply to it.
+	WrapOff bool
 }
 
 // World describes the world to the generic harness.
@@ -42,7 +45,14 @@ type World struct {
 	Ctor      map[string]string
 	// Enums: source enum type name → number of declared members (values 0..n-1).
 	Enums map[string]int
+	// WrapOffTypes: source struct type names whose declared method carries
+	// `goverter:wrapErrors no`.
+	WrapOffTypes map[string]bool
 }
+
+// innermostStruct remembers, per fault key, the innermost named source struct type on the
+// way to the failing element (filled by Locations).
+var innermostStruct = map[verifsim.FaultKey]string{}
 
 // ---- statistics -------------------------------------------------------------------------
 
@@ -355,6 +365,17 @@ func execC04(rt *rapid.T, w *World, m Method) {
 // of the conversion of that leaf — independently of goverter, from the world description.
 func Locations(w *World, v reflect.Value) map[verifsim.FaultKey][]verifsim.WrapElem {
 	out := map[verifsim.FaultKey][]verifsim.WrapElem{}
+	innermostStruct = map[verifsim.FaultKey]string{}
+	var named []string
+	record := func(k verifsim.FaultKey, path []verifsim.WrapElem, self string) {
+		out[k] = path
+		switch {
+		case self != "":
+			innermostStruct[k] = self
+		case len(named) > 0:
+			innermostStruct[k] = named[len(named)-1]
+		}
+	}
 	var walk func(v reflect.Value, path []verifsim.WrapElem)
 	ext := func(path []verifsim.WrapElem, e verifsim.WrapElem) []verifsim.WrapElem {
 		return append(append([]verifsim.WrapElem(nil), path...), e)
@@ -365,14 +386,18 @@ func Locations(w *World, v reflect.Value) map[verifsim.FaultKey][]verifsim.WrapE
 		case reflect.Struct:
 			if fn, ok := w.LeafFn[t.Name()]; ok {
 				id := int(v.FieldByName("ID").Int())
-				out[verifsim.FaultKey{Fn: fn, ID: id}] = path
+				record(verifsim.FaultKey{Fn: fn, ID: id}, path, "")
 				return
 			}
 			if fn, ok := w.Ctor[t.Name()]; ok {
-				out[verifsim.FaultKey{Fn: fn, ID: int(v.FieldByName("ID").Int())}] = path
+				record(verifsim.FaultKey{Fn: fn, ID: int(v.FieldByName("ID").Int())}, path, t.Name())
 			}
 			for _, ms := range w.MethodSrc[t.Name()] {
-				out[verifsim.FaultKey{Fn: ms[0], ID: int(v.FieldByName("ID").Int())}] = ext(path, verifsim.WrapElem{Kind: "field", Value: ms[1]})
+				record(verifsim.FaultKey{Fn: ms[0], ID: int(v.FieldByName("ID").Int())}, ext(path, verifsim.WrapElem{Kind: "field", Value: ms[1]}), t.Name())
+			}
+			if t.Name() != "" {
+				named = append(named, t.Name())
+				defer func() { named = named[:len(named)-1] }()
 			}
 			for i := 0; i < t.NumField(); i++ {
 				name := t.Field(i).Name
@@ -491,7 +516,13 @@ func execC07(rt *rapid.T, w *World, m Method) {
 			rt.Fatalf("C07 wrong-error: returned error wraps %v which did not fail (fired: %v)", inj.Key, fired)
 		}
 		want := locs[inj.Key]
-		switch w.Wrap {
+		mode := w.Wrap
+		if m.WrapOff {
+			mode = "unspecified"
+			Count("c07.location_oracle_skipped_method_level_override", 1)
+		}
+		switch mode {
+		case "unspecified":
 		case "wrapErrorsUsing":
 			ws := verifsim.Wraps()
 			var got []verifsim.WrapElem
@@ -533,7 +564,11 @@ func execC07(rt *rapid.T, w *World, m Method) {
 			// its path segment ends at the last element of the location, so when that element
 			// is a field or an index it is what this method "was setting" and must close the
 			// chain (a trailing map key adds nothing).
-			if n := len(want); n > 0 && want[n-1].Kind != "key" {
+			if w.WrapOffTypes[innermostStruct[inj.Key]] {
+				// the method that invoked the failing function is a declared method with
+				// `wrapErrors no`: it contributes nothing, the closing rule does not apply
+				Count("c07.closing_rule_waived_wrap_off_method", 1)
+			} else if n := len(want); n > 0 && want[n-1].Kind != "key" {
 				if len(chain) == 0 || chain[len(chain)-1] != want[n-1] {
 					rt.Fatalf("C07 wrong-location: fault %v: innermost wrapErrors element is %s, but the failing element was being set at %s (location %s)", inj.Key, fmtPath(chain), want[n-1].Kind+"("+want[n-1].Value+")", fmtPath(want))
 				}
